@@ -216,7 +216,11 @@ func checkC08(w *World, r *Report) {
 		if !ok {
 			return false
 		}
-		ps := obj.Type().(*types.Signature).Params()
+		sig := obj.Type().(*types.Signature)
+		if rv := sig.Recv(); rv != nil && isNamed(rv.Type(), twigPath, "Token") {
+			return true
+		}
+		ps := sig.Params()
 		for i := 0; i < ps.Len(); i++ {
 			if isNamed(ps.At(i).Type(), twigPath, "Token") {
 				return true
